@@ -12,7 +12,10 @@
 
    Flat reader = data.Chunk (the rd_ functions of Codec); stream reader = data.NewReader over an io.Reader that
    never returns short reads (bytes.Reader): the srd_ functions of Codec on the one-chunk source. *)
+From Coq Require String Ascii.
 From XMT Require Import Base.Prelude Model.Codec.
+Import String.StringSyntax.
+Delimit Scope string_scope with string.
 
 (* ---- error codes (Codec: EOF 1, ErrUnexpectedEOF 2, ErrInvalidType 3, ErrTooLarge 4, ErrLimit 5) *)
 Definition ENoProgress : Z := 7.       (* io.ErrNoProgress *)
@@ -557,6 +560,112 @@ Definition receive_bytes (self : list Z) (s : list Z) : A (list Z) :=
   ret [len st].
 
 (* =========================================================================================
+   8. Session.JSON (c2/z_no_implant.go): the view an operator gets of a Session.  The text is the
+      concatenation the Go code writes, in its order; the LEAVES (what ID.String, util.Uitoa,
+      escape.JSON, Time.Format ... return) are inputs.  Client-supplied strings (user, hostname,
+      version, interface names, proxy names and addresses) only enter through escape.JSON.
+   ========================================================================================= *)
+Definition lit (s : String.string) : list Z :=
+  map (fun c => Z.of_N (Ascii.N_of_ascii c)) (String.list_ascii_of_string s).
+Arguments lit s%string.
+
+(* a JSON string literal at byte level: quote, then bytes >= 0x20 other than quote and backslash,
+   or an escape (backslash and one of: quote, backslash, slash, b f n r t; or u and four hex digits), then the closing quote
+   and nothing behind it *)
+Definition is_hex (c : Z) : bool :=
+  ((48 <=? c) && (c <=? 57)) || ((65 <=? c) && (c <=? 70)) || ((97 <=? c) && (c <=? 102)).
+Fixpoint jstr_body (s : list Z) : bool :=
+  match s with
+  | [] => false
+  | 34 :: r => is_nil r
+  | 92 :: e :: r =>
+    if (e =? 34) || (e =? 92) || (e =? 47) || (e =? 98) || (e =? 102) || (e =? 110) || (e =? 114) || (e =? 116) then jstr_body r
+    else if e =? 117 then
+      match r with
+      | a :: b :: c :: d :: r' => is_hex a && is_hex b && is_hex c && is_hex d && jstr_body r'
+      | _ => false
+      end
+    else false
+  | c :: r => (32 <=? c) && negb (c =? 92) && jstr_body r
+  end.
+Definition is_jstr (s : list Z) : bool := match s with 34 :: r => jstr_body r | _ => false end.
+(* what may stand between two quotes without escaping *)
+Definition plainb (c : Z) : bool := (32 <=? c) && negb (c =? 34) && negb (c =? 92).
+Definition is_plain (s : list Z) : bool := forallb plainb s.
+(* util.Uitoa: a non-empty run of digits without a leading zero (or "0") *)
+Definition is_jnum (s : list Z) : bool :=
+  match s with
+  | [] => false
+  | [48] => true
+  | d :: r => (49 <=? d) && (d <=? 57) && forallb (fun c => (48 <=? c) && (c <=? 57)) r
+  end.
+
+Fixpoint join (sep : list Z) (l : list (list Z)) : list Z :=
+  match l with [] => [] | [x] => x | x :: r => x ++ sep ++ join sep r end.
+
+Definition jbool (b : bool) : list Z := if b then lit "true" else lit "false".
+
+Record netdev := { n_name : list Z; n_mac : list Z; n_ips : list (list Z) }.
+Record workh := { w_sh : list Z; w_sm : list Z; w_eh : list Z; w_em : list Z; w_days : list Z }.
+Record sess := {
+  j_id : list Z; j_hash : list Z; j_channel : bool; j_full : list Z;
+  j_user : list Z; j_host : list Z; j_ver : list Z;           (* escape.JSON(...) *)
+  j_arch : list Z; j_os : list Z (* escaped *); j_elev : bool; j_caps : list Z; j_domain : bool;
+  j_pid : list Z; j_ppid : list Z; j_net : list netdev;
+  j_created : list Z; j_last : list Z; j_via : list Z (* escaped *); j_sleep : list Z; j_jitter : list Z;
+  j_kill : list Z;                                               (* empty when the kill date is zero *)
+  j_work : option workh; j_cname : option (list Z); j_conn : option (list Z);   (* escaped *)
+  j_proxies : list (list Z * list Z) }.                          (* escaped name, escaped address *)
+
+(* the loops write a comma before every element but the first *)
+Fixpoint ips_loop (first : bool) (l : list (list Z)) : list Z :=
+  match l with
+  | [] => []
+  | x :: r => (if first then [] else lit ",") ++ lit """" ++ x ++ lit """" ++ ips_loop false r
+  end.
+Fixpoint net_loop (first : bool) (l : list netdev) : list Z :=
+  match l with
+  | [] => []
+  | d :: r => (if first then [] else lit ",") ++
+              lit "{""name"":" ++ n_name d ++ lit "," ++ lit """mac"":""" ++ n_mac d ++ lit """,""ip"":[" ++
+              ips_loop true (n_ips d) ++ lit "]}" ++ net_loop false r
+  end.
+Fixpoint proxy_loop (first : bool) (l : list (list Z * list Z)) : list Z :=
+  match l with
+  | [] => []
+  | (n, b) :: r => (if first then [] else lit ",") ++
+                   lit "{""name"":" ++ n ++ lit ",""address"": " ++ b ++ lit "}" ++ proxy_loop false r
+  end.
+
+Definition session_json (f : sess) : list Z :=
+  lit "{" ++ lit """id"":""" ++ j_id f ++ lit """," ++ lit """hash"":""" ++ j_hash f ++ lit """," ++
+  lit """channel"":" ++ jbool (j_channel f) ++ lit "," ++ lit """device"":{" ++
+  lit """id"":""" ++ j_full f ++ lit """," ++ lit """user"":" ++ j_user f ++ lit "," ++
+  lit """hostname"":" ++ j_host f ++ lit "," ++ lit """version"":" ++ j_ver f ++ lit "," ++
+  lit """arch"":""" ++ j_arch f ++ lit """," ++ lit """os"":" ++ j_os f ++ lit "," ++
+  lit """elevated"":" ++ jbool (j_elev f) ++ lit "," ++ lit """capabilities"":""" ++ j_caps f ++ lit """," ++
+  lit """domain"":" ++ jbool (j_domain f) ++ lit "," ++ lit """pid"":" ++ j_pid f ++ lit "," ++
+  lit """ppid"":" ++ j_ppid f ++ lit "," ++ lit """network"":[" ++
+  net_loop true (j_net f) ++
+  lit "]},""created"":""" ++ j_created f ++ lit """," ++ lit """last"":""" ++ j_last f ++ lit """," ++
+  lit """via"":" ++ j_via f ++ lit "," ++ lit """sleep"":" ++ j_sleep f ++ lit "," ++
+  lit """jitter"":" ++ j_jitter f ++ lit "," ++
+  (lit """kill_date"":""" ++ j_kill f ++ lit """,") ++
+  (match j_work f with
+   | Some w => lit """work_hours"":{""start_hour"":" ++ w_sh w ++ lit "," ++ lit """start_min"":" ++ w_sm w ++ lit "," ++
+               lit """end_hour"":" ++ w_eh w ++ lit "," ++ lit """end_min"":" ++ w_em w ++ lit "," ++
+               lit """days"":""" ++ w_days w ++ lit """}"
+   | None => lit """work_hours"":{}"
+   end) ++
+  (match j_cname f with Some n => lit ",""connector_name"":" ++ n | None => [] end) ++
+  (match j_conn f with Some n => lit ",""connector"":" ++ n | None => [] end) ++
+  (match j_proxies f with
+   | [] => []
+   | l => lit ",""proxy"":[" ++ proxy_loop true l ++ lit "]"
+   end) ++
+  lit "}".
+
+(* =========================================================================================
    correspondence cases
    ========================================================================================= *)
 Inductive dec :=
@@ -614,7 +723,8 @@ Definition alloc_class_ok (a n cls : Z) : bool :=
 Inductive case :=
 | C (d : dec) (input : list Z) (out : res (list Z)) (cls : Z)
 | CB64 (shift : Z) (input : list Z) (observed_decode : res (list Z)) (out : res (list Z)) (cls : Z)
-| CRecv (self : list Z) (input : list Z) (out : res (list Z)) (cls : Z).
+| CRecv (self : list Z) (input : list Z) (out : res (list Z)) (cls : Z)
+| CJson (f : sess) (text : list Z).           (* the leaves read from a Session, and what JSON() wrote *)
 
 (* errors: the two EOF flavours are compared exactly; EFuel never matches anything observed *)
 Definition check (c : case) : bool :=
@@ -631,4 +741,6 @@ Definition check (c : case) : bool :=
     let r := receive_bytes self input in
     alloc_class_ok (alloc r) (len input) cls &&
     ((cls =? 2) || res_eqb zlist_eqb (outcome r) out)
+  | CJson f text => zlist_eqb (session_json f) text
+
   end.
